@@ -29,6 +29,8 @@ pub trait Adapter {
     type PC: PolynomialCommitment<Self::F, Self::P>;
 
     fn make_poly(toks: &[String], num_vars: Option<usize>) -> Self::P;
+    /// the same polynomial built WITHOUT canonicalising the representation (term order, repeated terms), where the type allows it
+    fn make_poly_raw(_toks: &[String], _num_vars: Option<usize>) -> Option<Self::P> { None }
     fn make_point(toks: &[String]) -> Pt<Self>;
     fn setup(c: &Case) -> Outcome<UP<Self>> {
         let md = c.usize1("max_degree");
@@ -289,12 +291,14 @@ where
         };
         let mut orng = CountingRng::new(oseed);
         let mut vrng = CountingRng::new(cseed);
+        let mut open_cum: Option<Vec<u64>> = None;
         {
             // field draws of the prover's RNG for this operation (schemes whose prover is randomised)
             let k = A::open_draws(c, n);
             if k > 0 {
-                let (tape, _) = replay(oseed, k.min(8192), |r| <A::F as ark_std::UniformRand>::rand(r));
+                let (tape, cum) = replay(oseed, k.min(8192), |r| <A::F as ark_std::UniformRand>::rand(r));
                 out.input(&format!("otape.{}", t), &fs_to_strs(&tape));
+                open_cum = Some(cum);
             }
         }
         match op[0].as_str() {
@@ -306,6 +310,7 @@ where
                 let r = guard_any(|| A::PC::open(&ck, sel.iter().map(|i| &polys[*i]), sel.iter().map(|i| &comms[*i]),
                     &pts[pj], &mut ps, sel.iter().map(|i| &states[*i]), Some(&mut orng)));
                 out.obs1(&format!("open.{}", t), "S", r.class());
+                if let Some(cum) = &open_cum { out.obs1(&format!("open_draws.{}", t), "N", draws_of(cum, orng.bytes).to_string()); }
                 rec.sel = sel.clone(); rec.pt = pj; rec.values = values.clone();
                 if let Some(pf) = r.ok() {
                     let bp: BPf<A> = vec![pf.clone()].into();
@@ -714,7 +719,12 @@ where
     let bound = opt_usize(c.str1("bound"));
     let names = ["p", "q", "r", "pv", "zero"];
     let polys: Vec<LabeledPolynomial<A::F, A::P>> = (0..5)
-        .map(|i| LabeledPolynomial::new(names[i].to_string(), A::make_poly(c.get(&format!("poly.{}", i)), nv), bound, None))
+        .map(|i| {
+            let toks = c.get(&format!("poly.{}", i));
+            // "pv" is p in another representation: keep that representation when the polynomial type can hold it
+            let p = if i == 3 { A::make_poly_raw(toks, nv).unwrap_or_else(|| A::make_poly(toks, nv)) } else { A::make_poly(toks, nv) };
+            LabeledPolynomial::new(names[i].to_string(), p, bound, None)
+        })
         .collect();
     let mut rng = CountingRng::new(1);
     let cm = guard_any(|| A::PC::commit(&ck, polys.iter(), Some(&mut rng)));
